@@ -540,7 +540,15 @@ Record mcase := {
   m_valid : bool;
   m_orig : option (list fval)                         (* round trip: the generated value *)
 }.
-Inductive case := CGen (k : gkind) (o : oclass) (valid : bool) | CModel (c : mcase).
+Inductive hstep := HStep (k : gkind) (bytes : list N) (obs : res) (valid : bool) (orig : option (list fval)).
+Inductive case :=
+| CGen (k : gkind) (o : oclass) (valid : bool)
+| CModel (c : mcase)
+(* histories: several decodes by the same decoder in one process; the observable of EVERY step
+   is re-read after ALL decodes of the history have run (and after the input buffers have been
+   overwritten), so [valid] / the observed value are the late ones *)
+| CHistGen (steps : list (gkind * oclass * bool))
+| CHist (s : mschema) (orc : list (N * list N * option (list N))) (steps : list hstep).
 
 Fixpoint orc_lookup (t : list (N * list N * option (list N))) (p : N) (b : list N) : option (list N) :=
   match t with
@@ -578,22 +586,57 @@ Definition same_tokens (a b : list N) : bool :=
   | _, _ => false
   end.
 
+(* model = implementation on one decode: same bytes, same result; for a round trip the model's
+   encoding of the generated value is (up to field order) the input *)
+Definition agree_enc (c : mcase) : bool :=
+  match m_kind c, m_orig c with
+  | KRoundTrip, Some v => same_tokens (encode (m_schema c) v) (m_bytes c)
+  | _, _ => true
+  end.
+Definition agree_model (c : mcase) : bool :=
+  res_eqb (decode (orc_lookup (m_orc c)) (m_schema c) (m_bytes c)) (m_obs c) && agree_enc c.
+
+(* ------------------------------------------------------------------ histories *)
+(* Decoding is a function of the bytes alone: the model of "decode b1, then b2, ..., then read
+   all the decoded values back" is the list of the independent results. *)
+Definition decode_history (parse : N -> list N -> option (list N)) (s : mschema)
+           (bs : list (list N)) : list res := map (decode parse s) bs.
+
+Definition step_case (s : mschema) (orc : list (N * list N * option (list N))) (st : hstep) : mcase :=
+  match st with
+  | HStep k bytes obs valid orig =>
+      {| m_schema := s; m_kind := k; m_bytes := bytes; m_orc := orc; m_obs := obs;
+         m_valid := valid; m_orig := orig |}
+  end.
+Definition step_bytes (st : hstep) : list N := match st with HStep _ b _ _ _ => b end.
+Definition step_obs (st : hstep) : res := match st with HStep _ _ o _ _ => o end.
+Definition step_kind (st : hstep) : gkind := match st with HStep k _ _ _ _ => k end.
+Definition step_orig (st : hstep) : option (list fval) := match st with HStep _ _ _ _ o => o end.
+
+(* the property on a whole history, evaluated on the values RE-READ after the last decode: every
+   step satisfies the single-decode property (no panic, accepted values valid, round-trip steps
+   still equal to the value they were encoded from) *)
+Definition spec_hist_gen (steps : list (gkind * oclass * bool)) : bool :=
+  forallb (fun st => match st with (k, o, valid) => spec_gen k o valid end) steps.
+Definition spec_hist (s : mschema) (orc : list (N * list N * option (list N))) (steps : list hstep) : bool :=
+  forallb (fun st => spec_model (step_case s orc st)) steps.
+Definition agree_hist (s : mschema) (orc : list (N * list N * option (list N))) (steps : list hstep) : bool :=
+  list_eqb res_eqb (decode_history (orc_lookup orc) s (map step_bytes steps)) (map step_obs steps)
+  && forallb (fun st => agree_enc (step_case s orc st)) steps.
+
 Definition judge (c : case) : verdict :=
   match c with
   | CGen k o valid => decide (spec_gen k o valid) true
-  | CModel c =>
-      let parse := orc_lookup (m_orc c) in
-      decide (spec_model c)
-             (res_eqb (decode parse (m_schema c) (m_bytes c)) (m_obs c)
-              && match m_kind c, m_orig c with
-                 | KRoundTrip, Some v => same_tokens (encode (m_schema c) v) (m_bytes c)
-                 | _, _ => true
-                 end)
+  | CModel c => decide (spec_model c) (agree_model c)
+  | CHistGen steps => match steps with [] => BadCase | _ => decide (spec_hist_gen steps) true end
+  | CHist s orc steps =>
+      match steps with [] => BadCase | _ => decide (spec_hist s orc steps) (agree_hist s orc steps) end
   end.
 
-(* what --replay prints: the model's own result *)
-Definition explain (c : case) : option res :=
+(* what --replay prints: the model's own result(s) *)
+Definition explain (c : case) : list res :=
   match c with
-  | CGen _ _ _ => None
-  | CModel c => Some (decode (orc_lookup (m_orc c)) (m_schema c) (m_bytes c))
+  | CGen _ _ _ | CHistGen _ => []
+  | CModel c => [decode (orc_lookup (m_orc c)) (m_schema c) (m_bytes c)]
+  | CHist s orc steps => decode_history (orc_lookup orc) s (map step_bytes steps)
   end.
